@@ -1,4 +1,5 @@
 import Aurora.Lemmas.Localstore
+import Aurora.Lemmas.LocalstoreGc
 /-!
 C14 — Local store stays consistent across crashes.
 
@@ -193,5 +194,138 @@ theorem C14_pin_before_or_after_gc_counterexample : ¬ C14_pin_before_or_after_g
   have := h gcWitness [(1, some [(2, 1), (2, 1)])] 1 2
   revert this
   decide
+
+/-! ## the collection run: every crash prefix -/
+
+/-- the guard of `C14_crash_consistent_gc_partial`: the pyramids of the candidates the run evicts
+(known to chunkinfo, root not dirty) list every cid at most once, over the whole run.  It excludes
+exactly the shape of `C14_pin_before_or_after_gc_counterexample` (a pinned cid listed twice gets two
+direct `pinIndex.Put`s, or a direct `Put` and a batched delete). -/
+def C14_gcGuard (s : State) (pyr : List (Addr × Option (List (Addr × Nat)))) : Bool :=
+  decide (evictedCids (pyrFun pyr) s.dirty s.cands).Nodup
+
+/-- the guard does exclude the documented counterexample … -/
+example : C14_gcGuard gcWitness [(1, some [(2, 1), (2, 1)])] = false := by decide
+/-- … and accepts the same run with a well-formed pyramid (non-vacuity; the run does write directly). -/
+example : C14_gcGuard gcWitness [(1, some [(2, 1)])] = true ∧
+    (writes po0' gcWitness (.gcEvict [(1, some [(2, 1)])])).length = 2 := by decide
+
+/-- `crash_consistent` for the collection run, chunk part (no guard needed): for every state, candidate
+selection (`s.cands`, `s.dirty` are arbitrary), pyramid argument and prefix length `k` of the eviction's
+ordered write list, the crash image equals the state after the run, or has the data, access, gc and
+bin-id indexes and gcSize of the state before it — only pin counters were rewritten by the direct
+`pinIndex.Put`s.  So every chunk is fully present with its bookkeeping or fully absent. -/
+theorem C14_crash_consistent_gc (po : Addr → Nat) (s : State)
+    (pyr : List (Addr × Option (List (Addr × Nat)))) (k : Nat) :
+    let c := crash po s (.gcEvict pyr) k
+    (c.data = s.db.data ∧ c.access = s.db.access ∧ c.gc = s.db.gc ∧ c.binIDs = s.db.binIDs ∧
+      c.gcSize = s.db.gcSize) ∨ c = (step po s (.gcEvict pyr)).db := by
+  simp only [crash, writes, run, step]
+  rw [gcEvict_db]
+  cases hr : s.gcRunning with
+  | false => left; simp [(gcEvict_idle s (pyrFun pyr) hr).1]
+  | true =>
+    rw [gcEvict_writes s _ hr]
+    obtain ⟨P, B, hl, _, _, _, _, _⟩ := evictLoop_rel (pyrFun pyr) s.dirty s.cands (Tx.start s) 0 [] []
+    have hlog : (evictRun s (pyrFun pyr)).1.log = P.map mkPin := by
+      simpa [evictRun, Tx.start] using hl
+    rw [hlog]
+    by_cases hk : k ≤ (P.map mkPin).length
+    · left
+      rw [List.take_append_of_le_length hk, ← List.map_take]
+      have := applyLog_mkPin_fields (P.take k) s.db
+      exact ⟨this.1, this.2.1, this.2.2.1, this.2.2.2.1, this.2.2.2.2.1⟩
+    · right
+      rw [List.take_of_length_le (by simp at hk ⊢; omega)]
+
+/-- `crash_consistent` for the collection run (partial: guard `C14_gcGuard`, every evicted cid listed
+once): the chunk part above **and** every pin count in the crash image equals its value before or
+after the run.  Missing for the full clause: pyramids listing a cid twice
+(`C14_pin_before_or_after_gc_counterexample`). -/
+theorem C14_crash_consistent_gc_partial (po : Addr → Nat) (s : State)
+    (pyr : List (Addr × Option (List (Addr × Nat)))) (k : Nat) (hg : C14_gcGuard s pyr = true) :
+    let c := crash po s (.gcEvict pyr) k
+    ((c.data = s.db.data ∧ c.access = s.db.access ∧ c.gc = s.db.gc ∧ c.binIDs = s.db.binIDs ∧
+      c.gcSize = s.db.gcSize) ∨ c = (step po s (.gcEvict pyr)).db) ∧
+    ∀ a, SMap.get a c.pin = SMap.get a s.db.pin ∨
+         SMap.get a c.pin = SMap.get a (step po s (.gcEvict pyr)).db.pin := by
+  refine ⟨C14_crash_consistent_gc po s pyr k, ?_⟩
+  intro a
+  simp only [crash, writes, run, step]
+  rw [gcEvict_db]
+  cases hr : s.gcRunning with
+  | false => left; simp [(gcEvict_idle s (pyrFun pyr) hr).1]
+  | true =>
+    rw [gcEvict_writes s _ hr]
+    obtain ⟨P, B, hl, hb, _, hm, hw_, hn⟩ := evictLoop_rel (pyrFun pyr) s.dirty s.cands (Tx.start s) 0 [] []
+    have hlog : (evictRun s (pyrFun pyr)).1.log = P.map mkPin := by
+      simpa [evictRun, Tx.start] using hl
+    have hbat : (evictRun s (pyrFun pyr)).1.batch = B := by
+      simpa [evictRun, Tx.start] using hb
+    obtain ⟨hnd, hdel⟩ := hn (by simpa [C14_gcGuard] using hg)
+    rw [hlog]
+    by_cases hk : k ≤ (P.map mkPin).length
+    · rw [List.take_append_of_le_length hk, ← List.map_take, pin_applyLog_mkPin]
+      rcases lastPin_take a P hnd k with h | h
+      · left; rw [h]
+      · rw [h]
+        cases hp : lastPin a P with
+        | none => left; rfl
+        | some v =>
+          right
+          -- `a` was written directly: the batch of the run does not touch its pin entry
+          have hmem : a ∈ P.map (·.1) := by
+            apply Classical.byContradiction
+            intro hc
+            rw [lastPin_none_of_not_mem a P hc] at hp
+            cases hp
+          obtain ⟨p, hpP, hpa⟩ := List.mem_map.1 hmem
+          have hnodel : Write.pinDel a ∉ B := by
+            have := hdel p hpP
+            rw [hpa] at this
+            exact this
+          rw [applyLog_append]
+          simp only [applyLog_cons, applyLog_nil, applyDW]
+          rw [pin_applyBatch_untouched, pin_applyLog_mkPin, hp]
+          intro w hw
+          simp only [evictBatch, hbat, List.mem_append, List.mem_singleton, recycleWrites,
+            List.mem_flatMap] at hw
+          rcases hw with (hw | ⟨e, _, hw⟩) | hw
+          · rcases hw_ w hw with ⟨x, _, e⟩ | ⟨x, e⟩
+            · subst e
+              refine ⟨(by intro _ _ h; cases h), ?_⟩
+              intro e2
+              exact hnodel (e2 ▸ hw)
+            · subst e
+              exact ⟨(by intro _ _ h; cases h), (by intro h; cases h)⟩
+          · simp only [List.mem_cons, List.not_mem_nil, or_false] at hw
+            rcases hw with e | e | e <;> subst e <;>
+              exact ⟨(by intro _ _ h; cases h), (by intro h; cases h)⟩
+          · subst hw
+            exact ⟨(by intro _ _ h; cases h), (by intro h; cases h)⟩
+    · right
+      rw [List.take_of_length_le (by simp at hk ⊢; omega)]
+
+/-- the same after `localstore.New` on the crash image (`recover`): the reopened store has the chunks of the
+state before or after the run, every pin count is the old or the new one, and (the recomputed total
+fitting a uint64) its cached-chunk counter is at least that total. -/
+theorem C14_recovered_gc_partial (po : Addr → Nat) (s : State)
+    (pyr : List (Addr × Option (List (Addr × Nat)))) (k cap : Nat) (hg : C14_gcGuard s pyr = true)
+    (hfit : gcSum (crash po s (.gcEvict pyr) k).gc < two64) :
+    let r := (recover (crash po s (.gcEvict pyr) k) cap).db
+    (r.data = s.db.data ∨ r.data = (step po s (.gcEvict pyr)).db.data) ∧
+    (∀ a, SMap.get a r.pin = SMap.get a s.db.pin ∨
+          SMap.get a r.pin = SMap.get a (step po s (.gcEvict pyr)).db.pin) ∧
+    gcSum r.gc ≤ r.gcSize := by
+  obtain ⟨h1, h2⟩ := C14_crash_consistent_gc_partial po s pyr k hg
+  obtain ⟨kd, kp, _, _, _⟩ := C14_recover_keeps_indexes (crash po s (.gcEvict pyr) k) cap
+  refine ⟨?_, ?_, C14_recover_gcSize_ge _ cap hfit⟩
+  · simp only [kd]
+    rcases h1 with h | h
+    · exact Or.inl h.1
+    · exact Or.inr (by rw [h])
+  · intro a
+    simp only [kp]
+    exact h2 a
 
 end Aurora.Localstore
